@@ -3,8 +3,8 @@ CONSTANTS
   Octets = {"A", "L", "T", "X"}
   MaxLen = 4
   OutSizes = {0, 1, 2, 3, 4, 8}
-  EmptyReadRewinds = FALSE
-  UseSpill = FALSE
+  EmptyReadRewinds = TRUE
+  UseSpill = TRUE
 INVARIANT StreamingEqualsWhole
 INVARIANT AlwaysAPrefix
 INVARIANT NeverFails
